@@ -50,6 +50,7 @@ import (
 	"iter"
 	"regexp/syntax"
 	"strings"
+	"unicode/utf8"
 	"unsafe"
 
 	"github.com/coregx/coregex/meta"
@@ -804,7 +805,7 @@ func (r *Regex) ReplaceAllLiteral(src, repl []byte) []byte {
 		// This matches Go stdlib behavior (see FindAllIndex for details).
 		//nolint:gocritic // badCond: intentional - checking empty match at lastMatchEnd
 		if start == end && start == lastMatchEnd {
-			pos++
+			pos = nextPosAfterEmpty(src, pos)
 			if pos > len(src) {
 				break
 			}
@@ -827,7 +828,7 @@ func (r *Regex) ReplaceAllLiteral(src, repl []byte) []byte {
 
 		switch {
 		case start == end:
-			pos = end + 1
+			pos = nextPosAfterEmpty(src, end)
 		case end > pos:
 			pos = end
 		default:
@@ -875,7 +876,7 @@ func (r *Regex) ReplaceAllLiteralString(src, repl string) string {
 
 		//nolint:gocritic // badCond: intentional - checking empty match at lastMatchEnd
 		if start == end && start == lastMatchEnd {
-			pos++
+			pos = nextPosAfterEmpty(b, pos)
 			if pos > len(src) {
 				break
 			}
@@ -897,7 +898,7 @@ func (r *Regex) ReplaceAllLiteralString(src, repl string) string {
 
 		switch {
 		case start == end:
-			pos = end + 1
+			pos = nextPosAfterEmpty(b, end)
 		case end > pos:
 			pos = end
 		default:
@@ -915,6 +916,17 @@ func (r *Regex) ReplaceAllLiteralString(src, repl string) string {
 
 	buf.WriteString(src[lastEnd:])
 	return buf.String()
+}
+
+// nextPosAfterEmpty returns the position at which a match loop resumes after an
+// empty match at pos: one rune further, as regexp does (one byte at the end of
+// the input or on invalid UTF-8).
+func nextPosAfterEmpty(b []byte, pos int) int {
+	if pos < len(b) && b[pos] >= utf8.RuneSelf {
+		_, width := utf8.DecodeRune(b[pos:])
+		return pos + width
+	}
+	return pos + 1
 }
 
 // Expand appends template to dst and returns the result; during the
@@ -1064,7 +1076,7 @@ func (r *Regex) ReplaceAll(src, repl []byte) []byte {
 		// This matches Go's stdlib behavior for preventing duplicate empty matches.
 		//nolint:gocritic // badCond: intentional - checking empty match at lastNonEmptyMatchEnd
 		if absStart == absEnd && absStart == lastNonEmptyMatchEnd {
-			pos++
+			pos = nextPosAfterEmpty(src, pos)
 			if pos > len(src) {
 				break
 			}
@@ -1088,7 +1100,7 @@ func (r *Regex) ReplaceAll(src, repl []byte) []byte {
 		switch {
 		case absStart == absEnd:
 			// Empty match: advance by 1 to avoid infinite loop
-			pos = absEnd + 1
+			pos = nextPosAfterEmpty(src, absEnd)
 		case absEnd > pos:
 			pos = absEnd
 		default:
@@ -1148,7 +1160,7 @@ func (r *Regex) ReplaceAllFunc(src []byte, repl func([]byte) []byte) []byte {
 
 		//nolint:gocritic // badCond: intentional - checking empty match at lastMatchEnd
 		if start == end && start == lastMatchEnd {
-			pos++
+			pos = nextPosAfterEmpty(src, pos)
 			if pos > len(src) {
 				break
 			}
@@ -1170,7 +1182,7 @@ func (r *Regex) ReplaceAllFunc(src []byte, repl func([]byte) []byte) []byte {
 
 		switch {
 		case start == end:
-			pos = end + 1
+			pos = nextPosAfterEmpty(src, end)
 		case end > pos:
 			pos = end
 		default:
@@ -1222,7 +1234,7 @@ func (r *Regex) ReplaceAllStringFunc(src string, repl func(string) string) strin
 
 		//nolint:gocritic // badCond: intentional - checking empty match at lastMatchEnd
 		if start == end && start == lastMatchEnd {
-			pos++
+			pos = nextPosAfterEmpty(b, pos)
 			if pos > len(src) {
 				break
 			}
@@ -1244,7 +1256,7 @@ func (r *Regex) ReplaceAllStringFunc(src string, repl func(string) string) strin
 
 		switch {
 		case start == end:
-			pos = end + 1
+			pos = nextPosAfterEmpty(b, end)
 		case end > pos:
 			pos = end
 		default:
@@ -1495,7 +1507,7 @@ func (r *Regex) AllIndex(b []byte) iter.Seq[[2]int] {
 			// This matches Go stdlib behavior.
 			//nolint:gocritic // badCond: intentional - checking empty match at lastMatchEnd
 			if start == end && start == lastMatchEnd {
-				pos++
+				pos = nextPosAfterEmpty(b, pos)
 				if pos > len(b) {
 					return
 				}
@@ -1507,8 +1519,10 @@ func (r *Regex) AllIndex(b []byte) iter.Seq[[2]int] {
 			if start != end {
 				lastMatchEnd = end
 			}
-			if end == pos {
-				pos++
+			if start == end {
+				// Empty match: resume one rune further (as regexp does), so the same
+				// empty match is neither found again nor looked for inside a rune.
+				pos = nextPosAfterEmpty(b, end)
 			} else {
 				pos = end
 			}
